@@ -423,3 +423,28 @@ def weyl_seed_for(rng, gen, draws, jumps):
     inc = WEYL[gen]
     t = structured_word(rng, gen)
     return (t - draws * inc - jumps * (inc << 40)) & C.M64, t
+
+
+def literal_sweep(ops_word, ops_chacha=None, empty_too=False):
+    """deterministic requests that put every raw literal L of the current source (vlib/harvest.py), L-1 and L+1 into every role of the
+    word-generator streams: as the seed of each generator, as the Weyl state at the first draw and at / after a jump, as each word of an
+    injected Xoshiro256 state, and (optionally) as a ChaCha seed.  A guard keyed on a literal is then exercised for sure."""
+    from . import harvest
+    reqs = []
+    for L0 in harvest.literals(C.REPO):
+        for L in ((L0 - 1) & C.M64, L0, (L0 + 1) & C.M64):
+            for gen in ("xoshiro", "splitmix", "wyrand"):
+                reqs.append("word gen=%s seed=%d via=from_seed ops=%s" % (gen, L, ops_word))
+                if empty_too:
+                    reqs.append("word gen=%s seed=%d via=from_seed ops=" % (gen, L))
+            for gen, inc in WEYL.items():
+                for back in (inc, inc << 40, inc + (inc << 40), 2 * inc):
+                    reqs.append("word gen=%s seed=%d via=from_seed ops=%s" % (gen, (L - back) & C.M64, ops_word))
+            for pos in range(4):
+                st = [0, 0, 0, 0]
+                st[pos] = L
+                reqs.append("word gen=xoshiro state=%s via=serde ops=%s" % (",".join(map(str, st)), ops_word))
+            reqs.append("word gen=xoshiro state=%d,%d,%d,%d via=serde ops=%s" % (L, L, L, L, ops_word))
+            if ops_chacha is not None:
+                reqs.append("chacha n=12 seed=%d ops=%s" % (L, ops_chacha))
+    return reqs
